@@ -28,3 +28,5 @@ def run(prog, rep):
     _ro2.run_exact_compare(prog, rep)
     from ..rules import r_io as _riosb
     _riosb.run_string_buffers(prog, rep)
+    from ..rules import r_del as _rd3
+    _rd3.run(prog, rep)
